@@ -369,8 +369,12 @@ def determinism(ctx, sch, ref):
             return c[:-1] + bytes([(c[-1] ^ 0x20) if c else 0x41])
         if cls == 'first-byte':
             return bytes([c[0] ^ 0x01]) + c[1:] if c else b'x'
+        if cls == 'extension':
+            return c + b'\n#error stale tail\n'
+        if cls == 'extension-1':
+            return c + b'\n'
         return c
-    classes = ['empty', 'prefix-half', 'prefix-minus-1', 'last-byte', 'first-byte', 'identical']
+    classes = ['empty', 'prefix-half', 'prefix-minus-1', 'last-byte', 'first-byte', 'identical', 'extension', 'extension-1']
     ref_counts = None
     for cls in classes:
         wd = ctx.workdir()
